@@ -13,6 +13,7 @@
 -/
 import Buidl.Proofs.HD
 import Buidl.Proofs.HDLibPaths
+import Buidl.Proofs.HDParse
 namespace Buidl.Props.C08
 open Buidl Buidl.EC Buidl.PyStr Buidl.HD
 
@@ -188,6 +189,15 @@ theorem priv_parse_xprv (hash256 : Bytes → Bytes) (hh : ∀ b, 4 ≤ (hash256 
   have hv : (parsedPriv k v).privVersion = v := by unfold parsedPriv; split <;> rfl
   simp only [HDPriv.xprv, Option.getD_none, Option.getD_some, hv, parsedPriv_rawSerialize] at hx ⊢
   exact hx
+
+/-- parse accepts only Base58Check strings whose payload has exactly 78 bytes: anything longer or shorter, however
+    valid its checksum and version, is refused (contrapositive: `raw.length ≠ 78 → parse = none`) -/
+theorem parse_rejects_wrong_length (hash256 : Bytes → Bytes) (x : Str) :
+    (∀ k, HDPriv.parse hash256 x = some k →
+      ∃ raw, Base58.rawDecodeBase58 hash256 x = some raw ∧ raw.length = 78 ∧ HDPriv.rawParse raw none = some k) ∧
+    (∀ p, HDPub.parse hash256 x = some p →
+      ∃ raw, Base58.rawDecodeBase58 hash256 x = some raw ∧ raw.length = 78 ∧ HDPub.rawParse raw none = some p) :=
+  ⟨fun _ h => priv_parse_some h, fun _ h => pub_parse_some h⟩
 
 /-- every well-formed private key does serialise -/
 theorem priv_xprv_defined (hash256 : Bytes → Bytes) (k : HDPriv) (v : Bytes) (wf : PrivSerWF k v) :
